@@ -75,6 +75,7 @@ type Scenario struct {
 	Clients      []ClientSpec
 	Reply        ReplyFn
 	ReplyCuts    []int           // every backend reply is cut at these offsets (that are < len)
+	HandshakeCuts []int          // non-nil: AUTH/READONLY replies of one write are coalesced and cut at these offsets
 	Stateful     bool            // nodes keep a real KV (GET/SET/DEL/MGET/MSET/INCR/APPEND)
 	CheckOwner   bool            // nodes answer -MOVED for slots they do not own
 	RefuseDial   map[string]int  // addr -> number of initial dials refused (-1: always)
@@ -83,12 +84,15 @@ type Scenario struct {
 	SlowBackends bool
 	// exploration
 	Bound       int // max deviations; <0: unbounded
+	FreeKinds   []string // choice kinds ("sched","intn","order","write") whose alternatives cost no deviation (always enumerated)
 	Horizon     int // max scheduling steps
 	OrderSites  []string
 	IntnChoice  bool
 	WriteOracle bool
 	NoBootTick  bool
 	// oracle
+	CrashSig string // signature to report for a proxy panic in this scenario ("" = "crash")
+	HorizonSig string // signature to report when the step horizon is hit ("" = not a violation by itself)
 	Check func(w *World) []Violation
 	Quiescent func(w *World) *Violation
 }
@@ -122,6 +126,7 @@ type BConn struct {
 	Authed    bool
 	ReadOnly  bool
 	Asking    bool
+	hsMerged  int
 	Delivered int      // replies whose last byte has been handed to the proxy's socket
 	PreData   []string // handshake commands seen before the first data command
 	SawData   bool
@@ -132,6 +137,7 @@ type outChunk struct {
 	data []byte
 	hold int
 	last bool // last chunk of a reply
+	hs   bool // handshake reply (AUTH / READONLY)
 }
 
 type Client struct {
@@ -286,6 +292,7 @@ func Execute(sc *Scenario, choose vsys.Chooser) *World {
 	vsys.Reset()
 	vsys.Choose = choose
 	vsys.WriteOracle = sc.WriteOracle
+	vsys.IntnChoice = sc.IntnChoice
 	vsys.OrderSites = map[string]bool{}
 	for _, s := range sc.OrderSites {
 		vsys.OrderSites[s] = true
@@ -532,6 +539,10 @@ func (w *World) wait() (fd int, mask uint32, n int, stop bool) {
 				bc.Sock.Rx = append(bc.Sock.Rx, bc.outbox[0].data...)
 				if bc.outbox[0].last {
 					bc.Delivered++
+					if bc.outbox[0].hs && bc.hsMerged > 0 {
+						bc.Delivered += bc.hsMerged
+						bc.hsMerged = 0
+					}
 				}
 				bc.outbox = bc.outbox[1:]
 			}
@@ -622,6 +633,38 @@ func (w *World) feed(bc *BConn, b []byte) {
 		return
 	}
 	bc.inbox = append(bc.inbox, b...)
+	obStart := len(bc.outbox)
+	defer func() {
+		if w.Sc.HandshakeCuts == nil || len(bc.outbox)-obStart < 1 {
+			return
+		}
+		// coalesce the handshake replies produced by this write and re-cut them
+		var all []byte
+		n := 0
+		for _, c := range bc.outbox[obStart:] {
+			if !c.hs {
+				break
+			}
+			all = append(all, c.data...)
+			n++
+		}
+		if n == 0 {
+			return
+		}
+		rest := append([]outChunk{}, bc.outbox[obStart+n:]...)
+		bc.outbox = bc.outbox[:obStart]
+		prev := 0
+		for _, c := range w.Sc.HandshakeCuts {
+			if c > prev && c < len(all) {
+				bc.outbox = append(bc.outbox, outChunk{all[prev:c], 0, false, true})
+				prev = c
+			}
+		}
+		bc.outbox = append(bc.outbox, outChunk{all[prev:], 0, true, true})
+		bc.Delivered -= 0
+		bc.hsMerged += n - 1
+		bc.outbox = append(bc.outbox, rest...)
+	}()
 	for len(bc.inbox) > 0 {
 		args, n, st := ParseRequestStrict(bc.inbox)
 		if st == ParseIncomplete {
@@ -643,18 +686,19 @@ func (w *World) feed(bc *BConn, b []byte) {
 		w.Cmds = append(w.Cmds, rec)
 		if hold < 0 {
 			// never answered; later replies on this connection queue behind it (a stalled server)
-			bc.outbox = append(bc.outbox, outChunk{nil, -1, true})
+			bc.outbox = append(bc.outbox, outChunk{nil, -1, true, false})
 			continue
 		}
 		cuts := w.Sc.ReplyCuts
 		prev := 0
 		for _, c := range cuts {
 			if c > prev && c < len(reply) {
-				bc.outbox = append(bc.outbox, outChunk{reply[prev:c], hold, false})
+				bc.outbox = append(bc.outbox, outChunk{reply[prev:c], hold, false, false})
 				prev = c
 			}
 		}
-		bc.outbox = append(bc.outbox, outChunk{reply[prev:], hold, true})
+		name0 := Lower(cp[0])
+		bc.outbox = append(bc.outbox, outChunk{reply[prev:], hold, true, name0 == "auth" || name0 == "readonly"})
 	}
 }
 
